@@ -50,10 +50,10 @@ class E:
         if k == 'mem':
             b = self.ch[0]
             if self.op == '->':
-                return '%s->%s' % (b._atom(), self.n)
-            return '%s.%s' % (b._atom(), self.n)
+                return '%s->%s' % (b._post(), self.n)
+            return '%s.%s' % (b._post(), self.n)
         if k == 'idx':
-            return '%s[%s]' % (self.ch[0]._atom(), self.ch[1].s)
+            return '%s[%s]' % (self.ch[0]._post(), self.ch[1].s)
         if k == 'un':
             op = self.op
             if op.startswith('post'):
@@ -78,7 +78,13 @@ class E:
         return '<%s>' % k
 
     def _atom(self):
-        if self.k in ('bin', 'asg', 'cond') or (self.k == 'un' and self.op in ('-', '!', '~', '*', '&') and False):
+        if self.k in ('bin', 'asg', 'cond'):
+            return '(%s)' % self.s
+        return self.s
+
+    def _post(self):
+        """as the base of a postfix operator ([] . ->): unary prefix expressions need parentheses too"""
+        if self.k in ('bin', 'asg', 'cond') or (self.k == 'un' and not self.op.startswith('post')):
             return '(%s)' % self.s
         return self.s
 
@@ -541,9 +547,13 @@ class Func:
 
     def reaches(self, p1, p2, avoiding=(), acyclic=False):
         """Is there a CFG path from point p1 to point p2 that avoids the given points?
-        acyclic=True: back edges are not followed (same loop iteration)."""
+        acyclic=True: "within one iteration" — the back edges of the loops that contain BOTH
+        points are not followed (a point after a loop is still reachable from its body)."""
         avoiding = set(avoiding)
-        be = self.back_edges() if acyclic else ()
+        be = ()
+        if acyclic:
+            common = self.in_loop(p1[0]) & self.in_loop(p2[0])
+            be = {(s_, h) for (s_, h) in self.back_edges() if h in common}
         b1, i1 = p1; b2, i2 = p2
         def blocked(b, lo, hi):
             return any(ab == b and lo <= ai < hi for ab, ai in avoiding)
